@@ -244,6 +244,7 @@ def run(ctx):
     for c in ('x86_64', 'aarch64'):
         ctx.guard('C14.analysable', ctx.shared, {'C03.d-one-eval-poly': 'C14.g-engines-identical'}, c03.eval_poly, ctx, ctx.facts(c), c)
         ctx.guard('C14.analysable', ctx.shared, {'C03.a-schedule-siblings': 'C14.g-engines-identical'}, c03.schedules, ctx, ctx.facts(c), c)
+        ctx.guard('C14.analysable', ctx.shared, {'C03.i-byte-order-fixed': 'C14.g-engines-identical'}, c03.byte_order, ctx, ctx.facts(c), c)
         ctx.guard('C14.analysable', ctx.shared, {'C03.b-bounded-simd-access': 'C14.g-engines-identical'}, c03.bounded_access, ctx, ctx.facts(c), c)
     for cfg in cfgs:
         facts = ctx.facts(cfg)
